@@ -53,7 +53,12 @@ UpperSeq == <<"A","B","C","D","E","F","G","H","I","J","K","L","M","N","O","P","Q
 Lower == {LowerSeq[i] : i \in 1..26}
 Upper == {UpperSeq[i] : i \in 1..26}
 Digit == {"0", "1", "2", "3", "4", "5", "6", "7", "8", "9"}
-UniLetter == {"eacute"}      \* non-ASCII letters: word characters for the tokenizer, untouched by ASCII folding
+\* non-ASCII letters (e-acute, sharp s, n-tilde, capital E-acute): word characters for the tokenizer, untouched by
+\* ASCII folding, and NEVER bare for the renderer (the bare rule is ASCII-only)
+UniLetter == {"eacute", "eszett", "ntilde", "Eacute"}
+\* non-ASCII digits / number-like characters (subscript two, superscript two, Arabic-Indic one, circled one): neither
+\* bare for the renderer nor word characters for the tokenizer - an identifier containing one must be quoted
+UniDigit == {"sub2", "sup2", "arabic1", "circled1"}
 FoldFn == [c \in Upper |-> LowerSeq[CHOOSE i \in 1..26 : UpperSeq[i] = c]]
 Fold(c) == IF c \in Upper THEN FoldFn[c] ELSE c
 
@@ -82,7 +87,10 @@ ExtraIds == {
     <<"S","E","L","E","C","T">>,
     <<"T","a","b","l","e">>,
     <<"n","U","L","L">>,
-    <<"O","r","d","e","r">> }
+    <<"O","r","d","e","r">>,
+    \* identifiers with non-ASCII digits and letters in leading and non-leading position
+    <<"c","o","sub2">>, <<"x","sup2">>, <<"a","arabic1">>, <<"a","circled1">>, <<"_","sub2","a">>, <<"a","1","sup2">>,
+    <<"eszett">>, <<"a","eszett">>, <<"ntilde","a">>, <<"a","ntilde">>, <<"Eacute">>, <<"a","Eacute">>, <<"sub2">> }
 
 NONE == 99
 DQ == "dq"
@@ -91,7 +99,7 @@ DOT == "."
 US == "_"
 
 Alphabet == Alpha
-ASSUME Alpha \subseteq Lower \cup Upper \cup Digit \cup UniLetter \cup {US, DOT, DQ, SP}
+ASSUME Alpha \subseteq Lower \cup Upper \cup Digit \cup UniLetter \cup UniDigit \cup {US, DOT, DQ, SP}
 
 -----------------------------------------------------------------------------
 (* identifiers of length 0..n over the alphabet *)
